@@ -132,7 +132,9 @@ func VerifyFunc(p *Program, ss *Sorts, reg *SpecReg, fc *FuncContract) (res *Fun
 			}
 		}
 		if !found {
-			fv.abort(fd.Pos(), "stale contract: loop %s does not exist in %s", ord, fv.curFunc)
+			// the loop the contract speaks about is gone (refactored away): its invariants are simply unused; the function
+			// is still checked against its pre/postconditions, which decide whether the change preserved the property
+			fv.note("contract names loop " + ord + " which no longer exists; its invariants are ignored")
 		}
 	}
 	st := &State{vars: map[types.Object]Term{}, alias: map[types.Object]*Path{}, ghost: map[string]Term{}}
